@@ -4,6 +4,7 @@ and the two facts about the sixel branch itself: a sixel cell is not drawn, and 
 an image in the previous frame is always rewritten when the image is gone.
 -/
 import VaxisModel.Model.RenderSixel
+import VaxisModel.Lemmas.RenderToks
 
 namespace VaxisModel.Lemmas.RenderSixel
 open VaxisModel.Model.Render
@@ -43,5 +44,95 @@ theorem renderRowsS_eq (cw : String → Nat) (caps : Caps) (refresh : Bool) :
 theorem renderFrameS_eq (cw : String → Nat) (f : Frame) (h : ∀ r ∈ f.next, ∀ c ∈ r, c.sixel = false) :
     renderFrameS cw f = renderFrameC cw f := by
   simp only [renderFrameS, renderFrameC, renderBodyS, renderBodyC, renderRowsS_eq cw f.caps f.refresh f.next f.last 0 _ h]
+
+
+/-! ### vocabulary and hyperlink invariant of the current cell loop, image cells included -/
+
+open VaxisModel.Lemmas.RenderToks in
+theorem renderCellsS_post (cw : String → Nat) (caps : Caps) (refresh : Bool) (row : Nat) (l0 : String) :
+    ∀ (next last : List Cell) (col skip : Nat) (track : Bool) (dirty : Nat) (st : RSt),
+      linkRun l0 st.out = st.pen.link →
+      LoopPost l0 st (renderCellsS cw caps refresh row col skip track dirty next last st).2 := by
+  intro next
+  induction next with
+  | nil => intro last col skip track dirty st h; simpa [renderCellsS] using LoopPost.refl h
+  | cons n ns ih =>
+    intro last col skip track dirty st h
+    cases last with
+    | nil => simpa [renderCellsS] using LoopPost.refl h
+    | cons l ls =>
+      cases skip with
+      | succ k =>
+        simp only [renderCellsS]
+        exact ih ls (col + 1) k track _ st h
+      | zero =>
+        simp only [renderCellsS]
+        split
+        · have h' : linkRun l0 ({ st with reposition := true } : RSt).out = ({ st with reposition := true } : RSt).pen.link := h
+          have := ih ls (col + 1) 0 false (if col + advance cw l + 1 > dirty then col + advance cw l + 1 else dirty)
+            { st with reposition := true } h'
+          exact ⟨this.link, this.ext⟩
+        · split
+          · have h' : linkRun l0 ({ st with reposition := true } : RSt).out = ({ st with reposition := true } : RSt).pen.link := h
+            have := ih ls (col + 1) (advance cw (clipCell cw (ns.length + 1) n)) false dirty { st with reposition := true } h'
+            exact ⟨this.link, this.ext⟩
+          · have hc := cell_post cw caps row col l0 st (clipCell cw (ns.length + 1) n) h
+            exact LoopPost.trans hc (ih ls (col + 1) (advance cw (clipCell cw (ns.length + 1) n)) true _ _ hc.link)
+
+open VaxisModel.Lemmas.RenderToks in
+theorem renderRowsS_post (cw : String → Nat) (caps : Caps) (refresh : Bool) (l0 : String) :
+    ∀ (next last : Grid) (row : Nat) (st : RSt),
+      linkRun l0 st.out = st.pen.link →
+      LoopPost l0 st (renderRowsS cw caps refresh row next last st).2 := by
+  intro next
+  induction next with
+  | nil => intro last row st h; simpa [renderRowsS] using LoopPost.refl h
+  | cons n ns ih =>
+    intro last row st h
+    cases last with
+    | nil => simpa [renderRowsS] using LoopPost.refl h
+    | cons l ls =>
+      simp only [renderRowsS]
+      have h' : linkRun l0 ({ st with reposition := true } : RSt).out = ({ st with reposition := true } : RSt).pen.link := h
+      have h1 := renderCellsS_post cw caps refresh row l0 n l 0 0 false 0 { st with reposition := true } h'
+      have h1' : LoopPost l0 st (renderCellsS cw caps refresh row 0 0 false 0 n l { st with reposition := true }).2 :=
+        ⟨h1.link, h1.ext⟩
+      exact LoopPost.trans h1' (ih ls (row + 1) _ h1.link)
+
+open VaxisModel.Lemmas.RenderToks in
+/-- The body `render()` writes for ANY frame — image cells or not: optional pointer shape, cell-loop
+    tokens (CUP / SGR / OSC 8 / glyphs), optional OSC 8 close, optional showCursor. -/
+theorem renderBodyS_shape (cw : String → Nat) (f : Frame) :
+    ∃ (pre extra close show_ : List Tok),
+      (renderBodyS cw f).2 = pre ++ extra ++ close ++ show_ ∧
+      (pre = [] ∨ ∃ s, pre = [Tok.pointer s]) ∧
+      (∀ k ∈ extra, CellTok k) ∧
+      (close = [] ∨ close = [Tok.osc8 "" ""]) ∧
+      linkRun "" (pre ++ extra ++ close) = "" ∧
+      show_ = (if f.cursorNext.visible ∧ ¬ f.cursorLast.visible then showCursorToks f.cursorNext else []) := by
+  unfold renderBodyS
+  generalize hpre : (if f.shapeLast ≠ f.shapeNext then [Tok.pointer f.shapeNext] else []) = pre
+  have hpre' : pre = [] ∨ ∃ s, pre = [Tok.pointer s] := by
+    subst hpre; split
+    · exact Or.inr ⟨_, rfl⟩
+    · exact Or.inl rfl
+  have h0 : linkRun "" ({ out := pre } : RSt).out = ({ out := pre } : RSt).pen.link := by
+    rcases hpre' with h | ⟨s, h⟩ <;> subst h <;> simp [linkRun, linkStep]
+  have hp := renderRowsS_post cw f.caps f.refresh "" f.next f.last 0 { out := pre } h0
+  obtain ⟨extra, hext, hvoc⟩ := hp.ext
+  generalize hres : renderRowsS cw f.caps f.refresh 0 f.next f.last { out := pre } = res at hp hext
+  obtain ⟨last', st⟩ := res
+  simp only at hp hext ⊢
+  refine ⟨pre, extra, if st.pen.link ≠ "" then [Tok.osc8 "" ""] else [], _, ?_, hpre', hvoc, ?_, ?_, rfl⟩
+  · rw [hres]; simp only; rw [hext]
+  · split
+    · exact Or.inr rfl
+    · exact Or.inl rfl
+  · have hl := hp.link
+    rw [hext] at hl
+    rw [linkRun_append, hl]
+    split
+    · simp [linkRun, linkStep]
+    · rename_i h; simp only [ne_eq, Decidable.not_not] at h; simp [linkRun, h]
 
 end VaxisModel.Lemmas.RenderSixel
